@@ -222,7 +222,8 @@ struct Opts {
     int64_t cluster_size_vbytes{400};
     bool require_standard{true};
     std::set<std::string> classes;       // enabled event classes (N N3 NY NL NQ C CV CP J R RB RS SB PK PE PR D M MC I X T P)
-    std::string fees{"zlmh"};            // fee alphabet of N
+    std::string fees{"zlmh"};            // fee alphabet of N (version 2)
+    std::string fees3{};                 // fee alphabet of N version 3 (empty: same as fees)
     std::string fees_special{"m"};       // fee alphabet of NY NL NQ
     std::string child_fees{"mh"};        // fee alphabet of C / J
     std::string thr{"abcde"};            // thresholds of R
@@ -755,7 +756,7 @@ struct Sim {
         auto addr = Addressable(s);
         auto S = [](char c) { return std::string(1, c); };
         if (o.has("N")) for (char f : o.fees) cand.push_back("N:2:" + S(f));
-        if (o.has("N3")) for (char f : o.fees) cand.push_back("N:3:" + S(f));
+        if (o.has("N3")) for (char f : (o.fees3.empty() ? o.fees : o.fees3)) cand.push_back("N:3:" + S(f));
         if (o.has("NY")) for (char f : o.fees_special) cand.push_back("NY:" + S(f));
         if (o.has("NL")) for (char f : o.fees_special) cand.push_back("NL:" + S(f));
         if (o.has("NQ")) for (char f : o.fees_special) cand.push_back("NQ:" + S(f));
